@@ -77,7 +77,7 @@ def r3(ctx):
     nb = P.body(NPOOL + '::try_spawn::{closure#0}')
     npush = one([s for s in nb.calls(r'Vec::push$') if N(nb.call_args(s)[0]) == 'self.current_sources'], 'nts pool push')
     ctx.guard(nb, npush, 'not-contained', fact_call(r'NtsPoolSpawner::contains_source$', False), key='nts_pool|push|not-contained')
-    rng = [N(nb.rvalue_term(s.data['rv'])) for s in nb.aggregates(r'::Range$')]
+    rng = [S(nb.rvalue_term(s.data['rv'])) for s in nb.aggregates(r'::Range$')]
     ctx.check('nts_pool|loop-bound', rng == ['Range{start: 0, end: num::saturating_sub(self.config.count, Vec::len(self.current_sources))}'], 'nts pool loop range %s' % rng, sample=rng)
     cnt = nb.count_paths(lambda x: x == npush.bb, cap=3)
     cs = P.body('ntpd::daemon::spawn::nts_pool::NtsPoolSpawner::contains_source')
